@@ -113,6 +113,21 @@ CLAIMED.update({
     },
 })
 
+CLAIMED.update({
+    "C14": {
+        "text": "Coq theorems over Permutation: permuting the methods leaves the published name list equal (sort is canonical on permutations), the variants a permutation, and encoding / decoding / dispatch target unchanged (lookup by a duplicate-free key); permuting the override attributes leaves the entry-point set unchanged; for replies: acceptance of the claims is permutation-invariant (symmetric exclusion), both orders have entries for the same handler names, and the method answering each outcome of each name is the same (corollary of the table-fold refinement on both sides). Tie: L1 every generated program and random permutations of its methods and repeatable attributes, order-free observations compared between twins; reply tables and entry points likewise.",
+        "note": COMMON_NOTE + "Not claimed: order of variants inside an enum, of type parameters (first-use order), of names inside error texts, numeric reply ids. Interface-attribute order is observed at L1 only.",
+        "technique": "Coq proof (induction over Permutation; corollaries of the reply-table refinement) + L1 metamorphic correspondence on permuted twins",
+        "design_ref": "DESIGN.md section 5 / C14",
+    },
+    "C18": {
+        "text": "Coq theorems: each documented rule-breaking shape yields a diagnostic in the expansion model (no / several instantiate, several migrate, missing or parameterised constructor, instantiate / migrate / generics / missing Error in an interface, unknown kind / override / feature arguments, wherever the attribute stands), and for reply tables a characterisation for ALL tables: the real fold reports no diagnostic iff every claim is ok (own parameters well placed, no earlier claim of the name excludes its outcome, payload signature and raw marker equal to the first claim's) - proved through the fold invariant, which also gives valid => accepted. Tie: L1 valid programs and their single rule-breaking edits, valid and invalid reply tables vs model and vs the planted edit; rustc batch of invalid programs: error text and the line pointed at.",
+        "note": COMMON_NOTE + "Partial: message text and file:line are rendered by rustc from spans; the model records the diagnostic kind. The compiled batch checks text fragment and line for 13 rules.",
+        "technique": "Coq proof (diagnostic-accumulating fold characterised declaratively) + L1 mutation correspondence + real rustc diagnostics batch",
+        "design_ref": "DESIGN.md section 5 / C18",
+    },
+})
+
 NOT_YET = {}
 
 
